@@ -490,6 +490,8 @@ impl Drop for Server {
                 let path = addr.as_pathname().unwrap();
                 std::os::unix::net::UnixStream::connect(path).map(Connection::from)
             }
+            #[cfg(tiny_http_verif)]
+            ListenAddr::Mem(addr) => addr.connect(Default::default()).map(Connection::Mem),
         };
         if let Ok(stream) = maybe_stream {
             let _ = stream.shutdown(Shutdown::Both);
